@@ -270,6 +270,24 @@ fn delivery_scenarios(lvl: u8, tag: &str) -> Vec<Scenario> {
             out.push(scn(format!("{tag}-{n}-handler-panics-cap{cap}-{kind:?}"), vec![a], vec![c0, c1], &[]));
         }
     }
+    // a backlog far beyond any batch size (1100, 3000 messages) that builds up while the actor starts, then stop() or the
+    // last reference dropped: every single message is handled, once, in order
+    for nmsg in if thorough { vec![1100usize, 3000] } else { vec![1100usize] } {
+        for ending in 0..2 {
+            let mut ids = Ids(0);
+            let mut a = ActorSpec::plain(nmsg + 1);
+            a.free_handlers = true;
+            a.on_start = gated(Outcome::Ok);
+            let mut steps: Vec<Step> = Vec::new();
+            for _ in 0..nmsg {
+                steps.push(send(SendKind::Tell, 0, MsgSpec::quick(ids.next())));
+            }
+            steps.push(if ending == 0 { Step::Stop(0) } else { Step::DropH(0) });
+            let c0 = Program { slots: vec![(0, 0)], steps, auto_yield: false, free: false };
+            n += 1;
+            out.push(scn(format!("{tag}-{n}-backlog-of-{nmsg}-then-{}", if ending == 0 { "stop" } else { "drop" }), vec![a], vec![c0], &[]));
+        }
+    }
     // an ask through a type-erased handle with a stop() right behind it: the actor answers and ends before the asker
     // is polled again, which then finds its reply and a closed mailbox at the same time (several tokio rng seeds)
     for seed in 0..6u64 {
@@ -372,6 +390,24 @@ fn gen_c02(lvl: u8) -> Vec<Scenario> {
             let c1 = Program::new(vec![(0, 0)], later);
             v.push(scn(format!("c02-stop-after-abandoned-stop-cap{cap}-erased{erased}"), vec![a], vec![c0, c1], &[]));
         }
+    }
+    // a long backlog with the stop request in the middle of it (40 tells, stop(), 70 more tells - all accepted while
+    // the actor is still starting): what was accepted before the stop is handled, nothing behind it is
+    for (before, after) in if thorough { vec![(40usize, 70usize), (10, 100), (64, 64)] } else { vec![(40usize, 70usize)] } {
+        let mut ids = Ids(0);
+        let mut a = ActorSpec::plain(before + after + 1);
+        a.free_handlers = true;
+        a.on_start = gated(Outcome::Ok);
+        let mut steps: Vec<Step> = Vec::new();
+        for _ in 0..before {
+            steps.push(send(SendKind::Tell, 0, MsgSpec::quick(ids.next())));
+        }
+        steps.push(Step::Stop(0));
+        for _ in 0..after {
+            steps.push(send(SendKind::Tell, 0, MsgSpec::quick(ids.next())));
+        }
+        let c0 = Program { slots: vec![(0, 0)], steps, auto_yield: false, free: false };
+        v.push(scn(format!("c02-stop-in-the-middle-of-a-backlog-{before}-{after}"), vec![a], vec![c0], &[]));
     }
     with_fused(v)
 }
@@ -571,6 +607,36 @@ fn gen_c04(lvl: u8) -> Vec<Scenario> {
             }
         }
     }
+    // hooks that take long - 40 s, 5 min, 2 h of virtual time - and errors whose text is several kilobytes of
+    // multi-byte characters: the lifecycle and its result are the same as with quick hooks and small errors
+    for slow in [40_000u32, 300_000, 7_200_000] {
+        for stop_out in [Outcome::Ok, Outcome::Err(31), Outcome::Err(9001)] {
+            for cause in 0..4 {
+                let mut ids = Ids(0);
+                let mut a = ActorSpec::plain(2);
+                a.on_stop = HookSpec { entry_yield: true, steps: vec![Step::Sleep(slow)], out: stop_out.clone(), free: false };
+                let mut steps = vec![send(SendKind::Tell, 0, MsgSpec::quick(ids.next()))];
+                match cause {
+                    0 => steps.push(Step::Stop(0)),
+                    1 => steps.push(Step::Kill(0)),
+                    2 => steps.push(Step::DropH(0)),
+                    _ => {
+                        a.on_run = vec![HookSpec { entry_yield: false, steps: vec![Step::Sleep(slow)], out: Outcome::Err(9002), free: false }];
+                    }
+                }
+                let c0 = Program::new(vec![(0, 0)], steps);
+                n += 1;
+                out.push(scn(format!("c04-{n}-slow-hooks-{slow}ms-{stop_out:?}-cause{cause}"), vec![a], vec![c0], &[]));
+            }
+        }
+    }
+    for start_out in [Outcome::Err(9000), Outcome::Err(9003)] {
+        let mut a = ActorSpec::plain(2);
+        a.on_start = HookSpec { entry_yield: true, steps: vec![Step::Sleep(60_000)], out: start_out.clone(), free: false };
+        let c0 = Program::new(vec![(0, 0)], vec![send(SendKind::Tell, 0, MsgSpec::quick(1))]);
+        n += 1;
+        out.push(scn(format!("c04-{n}-slow-start-{start_out:?}"), vec![a], vec![c0], &[]));
+    }
     out
 }
 
@@ -729,7 +795,32 @@ fn gen_c06(lvl: u8) -> Vec<Scenario> {
             out.push(s);
         }
     }
-    with_fused(out)
+    // a backlog of 1100 (2100) messages in a mailbox that large; the handler of the 5th (40th) is a scheduling
+    // point, a second client kills the actor: at most one more handler starts, whatever the backlog
+    let mut big = Vec::new();
+    for (nmsg, at) in if thorough { vec![(1100usize, 5usize), (1100, 40), (2100, 1030)] } else { vec![(1100usize, 5usize)] } {
+        let mut ids = Ids(0);
+        let mut a = ActorSpec::plain(nmsg);
+        a.free_handlers = true;
+        a.on_start = gated(Outcome::Ok);
+        let mut steps: Vec<Step> = Vec::new();
+        for k in 0..nmsg {
+            let mut m = MsgSpec::quick(ids.next());
+            if k + 1 == at {
+                // this handler wakes the killer and then gives way once
+                m.entry_yield = true;
+                m.steps = vec![Step::Signal(0), Step::Yield];
+            }
+            steps.push(send(SendKind::Tell, 0, m));
+        }
+        let c0 = Program { slots: vec![(0, 0)], steps, auto_yield: false, free: false };
+        let c1 = Program::new(vec![(0, 0)], vec![Step::WaitSig(0), Step::Kill(0)]);
+        n += 1;
+        big.push(scn(format!("c06-{n}-kill-inside-a-backlog-of-{nmsg}-at-{at}"), vec![a], vec![c0, c1], &["bound=2", "maxexecs=20000"]));
+    }
+    let mut out = with_fused(out);
+    out.extend(big);
+    out
 }
 
 // ------------------------------------------------------------------ C07: termination and references
@@ -1089,6 +1180,18 @@ fn gen_c08(lvl: u8) -> Vec<Scenario> {
             out.push(scn(format!("c08-{n}-self-feeding-onrun-act{act}-free{free_run}"), vec![a], vec![c0], if act == 2 { &["selfkill_in_on_run"] } else { &[] }));
         }
     }
+    // on_run fails with an error whose Debug text is several kilobytes of multi-byte characters
+    for tag in 9000..=9003u32 {
+        let mut ids = Ids(0);
+        let mut a = ActorSpec::plain(2);
+        a.on_run = vec![
+            HookSpec { entry_yield: false, steps: vec![Step::Mark(1), Step::Yield], out: Outcome::OkTrue, free: false },
+            HookSpec { entry_yield: false, steps: vec![Step::Mark(2)], out: Outcome::Err(tag), free: false },
+        ];
+        let c0 = Program::new(vec![(0, 0)], vec![send(SendKind::Tell, 0, MsgSpec::quick(ids.next()))]);
+        n += 1;
+        out.push(scn(format!("c08-{n}-on-run-fails-with-a-long-error-text-{tag}"), vec![a], vec![c0], &[]));
+    }
     // a backlog larger than tokio's cooperative budget (128 operations per poll of a task), handled by handlers that
     // never suspend: the idle handler still waits until the mailbox is empty
     for nmsg in if thorough { vec![130usize, 200, 300] } else { vec![200usize] } {
@@ -1216,6 +1319,14 @@ fn gen_c09(lvl: u8) -> Vec<Scenario> {
             n += 1;
             out.push(scn(format!("c09-{n}-fills-own-mailbox-cap{cap}-fromrun{from_run}"), vec![a], vec![c0], &["quiet"]));
         }
+    }
+    // large capacities are what was asked for, too (the channel reports its capacity through hook H3)
+    for cap in [1000usize, 65_535, 65_536, 100_000, 1_000_000, (u32::MAX as usize) + 1] {
+        let mut ids = Ids(0);
+        let a = ActorSpec::plain(cap);
+        let c0 = Program::new(vec![(0, 0)], vec![send(SendKind::Tell, 0, MsgSpec::quick(ids.next())), send(SendKind::Ask, 0, MsgSpec::quick(ids.next()))]);
+        n += 1;
+        out.push(scn(format!("c09-{n}-large-capacity-{cap}"), vec![a], vec![c0], &["quiet"]));
     }
     // capacity 0 is rejected
     {
@@ -1617,6 +1728,26 @@ fn gen_c11(lvl: u8) -> Vec<Scenario> {
         n += 1;
         out.push(scn(format!("c11-{n}-concurrent-spawn"), vec![a1, a2, a3], vec![c(0), c(1), c(2)], &[]));
     }
+    // the actor is killed with 1100 messages still queued; once its JoinHandle has resolved every handle says so
+    {
+        let mut ids = Ids(0);
+        let mut a = ActorSpec::plain(1200);
+        a.on_start = gated(Outcome::Ok);
+        let mut steps: Vec<Step> = Vec::new();
+        for _ in 0..1100 {
+            steps.push(send(SendKind::Tell, 0, MsgSpec::quick(ids.next())));
+        }
+        steps.push(Step::CloneH { from: 0, to: 1 });
+        steps.push(Step::Downgrade { from: 0, to: 2 });
+        steps.push(Step::Kill(0));
+        let c0 = Program { slots: vec![(0, 0)], steps, auto_yield: false, free: false };
+        let c1 = Program::new(
+            vec![(0, 0)],
+            vec![Step::Sleep(50), Step::IsAlive(0), send(SendKind::Tell, 0, MsgSpec::quick(ids.next())), send(SendKind::Ask, 0, MsgSpec::quick(ids.next())), Step::Downgrade { from: 0, to: 2 }, Step::Upgrade { from: 2, to: 1 }, Step::IsAlive(1)],
+        );
+        n += 1;
+        out.push(scn(format!("c11-{n}-killed-with-a-backlog-of-1100"), vec![a], vec![c0, c1], &[]));
+    }
     // every strong handle is dropped while an accepted stop request (or an accepted tell) is still queued behind a
     // busy handler: a weak handle still upgrades
     for queued in 0..2 {
@@ -1750,6 +1881,19 @@ fn gen_c13(lvl: u8) -> Vec<Scenario> {
                 }
             }
         }
+    }
+    // 1100 failed deliveries in a row to one ended actor, by one sender, within a millisecond
+    for kind in [SendKind::Tell, SendKind::Ask] {
+        let mut ids = Ids(0);
+        let a = ActorSpec::plain(2);
+        let mut steps: Vec<Step> = vec![Step::Stop(0), Step::Sleep(5)];
+        for _ in 0..1100 {
+            steps.push(send(kind, 0, MsgSpec::quick(ids.next())));
+            steps.push(Step::Fuse);
+        }
+        let c0 = Program::new(vec![(0, 0)], steps);
+        n += 1;
+        out.push(scn(format!("c13-{n}-1100-failures-in-a-row-{kind:?}"), vec![a], vec![c0], &[]));
     }
     with_fused(out)
 }
@@ -1910,6 +2054,11 @@ fn gen_c14(lvl: u8) -> Vec<Scenario> {
             n += 1;
             out.push(ring(len, &vec![EdgeHook::Handler; len], &ks, format!("c14-{n}-ring{len}-{ks:?}")));
         }
+    }
+    // long nested chains: A0 asks A1 asks ... asks A(n-1), whose handler asks A0
+    for len in if thorough { vec![5usize, 6, 8, 12] } else { vec![5usize, 8] } {
+        n += 1;
+        out.push(chain(len, &vec![EdgeKind::Ask; len], format!("c14-{n}-chain{len}-long")));
     }
     // two rings one after the other in the same process (t=0 and t=20): the second cycle is detected like the first
     for kind in [EdgeKind::Ask, EdgeKind::Erased] {
